@@ -212,6 +212,18 @@ def _apply_srp_config_override(
     srp_config = ensure_config_section(orchestrator, "srp")
     set_config_value(srp_config, "max_methods", max_methods, verbose)
     set_config_value(srp_config, "max_loc", max_loc, verbose)
+    _apply_srp_to_languages(srp_config, max_methods, max_loc, verbose)
+
+
+def _apply_srp_to_languages(
+    srp_config: dict, max_methods: int | None, max_loc: int | None, verbose: bool
+) -> None:
+    """Apply command-line thresholds to language-specific blocks too (CLI options win)."""
+    for lang in ["python", "typescript", "javascript", "rust"]:
+        lang_config = srp_config.get(lang)
+        if isinstance(lang_config, dict):
+            set_config_value(lang_config, "max_methods", max_methods, verbose)
+            set_config_value(lang_config, "max_loc", max_loc, verbose)
 
 
 def _run_srp_lint(
